@@ -433,6 +433,7 @@ func (model Model) GetFieldIndex(ptype string, field string) (int, error) {
 	if index == -1 {
 		return index, fmt.Errorf(field + " index is not set, please use enforcer.SetFieldIndex() to set index")
 	}
-	assertion.FieldIndexMap[field] = index
+	// not memoised in FieldIndexMap: this lookup runs under read locks (SyncedEnforcer
+	// getters), where a map write is a data race
 	return index, nil
 }
